@@ -109,22 +109,36 @@ func gopfmt(path string, class, smart, mvgo bool) (err error) {
 }
 
 func writeFileWithBackup(path string, target []byte) (err error) {
+	fi, err := os.Stat(path)
+	if err != nil {
+		return
+	}
+	// The temp file lives next to the target (never in os.TempDir(), which may be on another
+	// file system), gets the target's permission bits, and is renamed over the target: at any
+	// moment the path holds the complete old or the complete new content.
 	dir, file := filepath.Split(path)
+	if dir == "" {
+		dir = "."
+	}
 	f, err := os.CreateTemp(dir, file)
 	if err != nil {
 		return
 	}
 	tmpfile := f.Name()
 	_, err = f.Write(target)
-	f.Close()
-	if err != nil {
-		return
+	if err == nil {
+		err = f.Chmod(fi.Mode().Perm())
 	}
-	err = os.Remove(path)
-	if err != nil {
-		return
+	if e := f.Close(); err == nil {
+		err = e
 	}
-	return os.Rename(tmpfile, path)
+	if err == nil {
+		err = os.Rename(tmpfile, path)
+	}
+	if err != nil {
+		os.Remove(tmpfile)
+	}
+	return
 }
 
 type walker struct {
